@@ -47,7 +47,9 @@ pub enum CliOut {
     /// failed with diagnostics of a later stage only
     Other(String),
     Crash(String),
-    /// exit 0 but the emitted module cannot be read back
+    /// exit 0 (resolution and check succeeded) but the emitted module cannot be read back: the merge is not observable.
+    /// Not a C11 failure by itself — whether printed SDL parses back is C16's subject (known open findings there:
+    /// a double quote / line feed inside a description or string)
     Unreadable(String),
 }
 
@@ -112,7 +114,9 @@ fn parse_loc(line: &str) -> Option<Loc> {
     Some((file, l, c))
 }
 
-fn classify_output(code: Option<i32>, timed_out: bool, text: &str, module: Option<String>) -> CliOut {
+fn classify_output(raw: Raw) -> CliOut {
+    let Raw { code, timed_out, text, module } = raw;
+    let text = text.as_str();
     if timed_out {
         return CliOut::Crash("timed out".into());
     }
@@ -160,7 +164,15 @@ fn classify_output(code: Option<i32>, timed_out: bool, text: &str, module: Optio
     }
 }
 
-pub fn run_project(cli: &str, scratch: &str, n: u64, files: &[String]) -> CliOut {
+/// what one CLI process left behind (collected on a worker thread, classified on the main thread)
+pub struct Raw {
+    code: Option<i32>,
+    timed_out: bool,
+    text: String,
+    module: Option<String>,
+}
+
+pub fn run_raw(cli: &str, scratch: &str, n: u64, files: &[String]) -> Raw {
     let dir = fresh_dir(scratch, &format!("c11-cli-{n}"));
     std::fs::create_dir_all(dir.join("schema")).expect("mkdir schema");
     for (i, t) in files.iter().enumerate() {
@@ -170,8 +182,27 @@ pub fn run_project(cli: &str, scratch: &str, n: u64, files: &[String]) -> CliOut
     let run = run_cli(cli, &dir, &["generate"], &[], Duration::from_secs(30));
     let module = std::fs::read_to_string(dir.join("out/server.js")).ok();
     let _ = std::fs::remove_dir_all(&dir);
-    let text = format!("{}\n{}", run.stdout, run.stderr);
-    classify_output(run.code, run.timed_out, &text, module)
+    Raw { code: run.code, timed_out: run.timed_out, text: format!("{}\n{}", run.stdout, run.stderr), module }
+}
+
+/// run the projects on a few worker threads (the CLI processes are independent); results in input order
+pub fn run_many(cli: &str, scratch: &str, first_n: u64, projects: &[&Vec<String>]) -> Vec<Raw> {
+    let next = std::sync::atomic::AtomicUsize::new(0);
+    let slots: Vec<std::sync::Mutex<Option<Raw>>> = projects.iter().map(|_| std::sync::Mutex::new(None)).collect();
+    let workers = projects.len().clamp(1, 4);
+    std::thread::scope(|sc| {
+        for _ in 0..workers {
+            sc.spawn(|| loop {
+                let i = next.fetch_add(1, std::sync::atomic::Ordering::SeqCst);
+                if i >= projects.len() {
+                    break;
+                }
+                let raw = run_raw(cli, scratch, first_n + i as u64, projects[i]);
+                *slots[i].lock().unwrap() = Some(raw);
+            });
+        }
+    });
+    slots.into_iter().map(|m| m.into_inner().unwrap().expect("worker result")).collect()
 }
 
 /// what the resolver is given by the CLI, per the property: the files' items in load order, then the built-ins
@@ -226,6 +257,14 @@ fn cli_features(input: &TsDoc, nfiles: usize) -> (BTreeSet<String>, bool) {
     (tags, nontrivial || f.nontrivial)
 }
 
+fn printer_safe(s: &Sexp) -> bool {
+    match s {
+        Sexp::Str(t) => !t.contains(['"', '\\', '\n', '\r']),
+        Sexp::List(v) => v.iter().all(printer_safe),
+        Sexp::Atom(_) => true,
+    }
+}
+
 /// judge one layout: the CLI's outcome against the reference answer for (files ++ built-ins)
 fn judge_layout(files: &[String], input: &TsDoc, out: &CliOut, spec: &Sexp, with_alt: bool, fails: &mut Vec<Fail>) {
     let mut fail = |stream: &'static str, sig: String, what: String| fails.push(Fail { stream, sig, what, with_alt });
@@ -241,10 +280,6 @@ fn judge_layout(files: &[String], input: &TsDoc, out: &CliOut, spec: &Sexp, with
             fail("O", "cli:crash".into(), format!("the CLI crashed or timed out on the project: {}", trunc(m, 400)));
             return;
         }
-        CliOut::Unreadable(m) => {
-            fail("O", "cli:merged-schema-unreadable".into(), format!("the CLI succeeded but the emitted schema cannot be read back: {}", trunc(m, 400)));
-            return;
-        }
         _ => {}
     }
     if let Some(si) = spec_items {
@@ -255,6 +290,9 @@ fn judge_layout(files: &[String], input: &TsDoc, out: &CliOut, spec: &Sexp, with
                 format!("cli:rejects-valid:{}", out.tag()),
                 format!("no name is defined twice within a kind and every extension has a same-kind definition (the built-ins included), but the CLI answers: {}", out.show()),
             ),
+            // a string with a double quote, backslash or line break is not printed faithfully (open C16 findings): the
+            // emitted text then parses to other tokens, which says nothing about the merge
+            CliOut::Ok(_) if !printer_safe(&input.to_sexp()) => {}
             CliOut::Ok(real) => {
                 if real.iter().any(|i| matches!(i.head(), Some("typeext") | Some("schemaext"))) {
                     fail("O", "cli:extend-survives".into(), "an `extend` item is in the emitted schema".into());
@@ -279,7 +317,7 @@ fn judge_layout(files: &[String], input: &TsDoc, out: &CliOut, spec: &Sexp, with
         // ---- the reference rejects the input
         let (dup, orphan) = (atoms.contains(&"dup-original"), atoms.contains(&"orphan"));
         match out {
-            CliOut::Ok(_) | CliOut::OkUnobserved(_) | CliOut::Other(_) => {
+            CliOut::Ok(_) | CliOut::OkUnobserved(_) | CliOut::Unreadable(_) | CliOut::Other(_) => {
                 let sig = if dup {
                     format!("cli:accepts-dup-original:{}", feats.dup_kind.clone().unwrap_or_else(|| "?".into()))
                 } else {
@@ -325,10 +363,17 @@ impl Ctx {
         self.cli.clone().filter(|c| !c.is_empty() && std::path::Path::new(c).exists())
     }
 
-    fn cli_run(&mut self, cli: &str, files: &[String]) -> CliRunRec {
-        self.cli_seq += 1;
-        let n = self.cli_seq;
-        CliRunRec { input: reference_input(files), out: run_project(cli, &self.scratch, n, files) }
+    /// run every project (real CLI, in parallel) and parse its reference input
+    fn cli_run_all(&mut self, cli: &str, projects: &[&Vec<String>]) -> Vec<CliRunRec> {
+        let t0 = std::time::Instant::now();
+        let first = self.cli_seq + 1;
+        self.cli_seq += projects.len() as u64;
+        let raws = run_many(cli, &self.scratch, first, projects);
+        let t1 = std::time::Instant::now();
+        let recs = raws.into_iter().zip(projects.iter()).map(|(raw, files)| CliRunRec { input: reference_input(files), out: classify_output(raw) }).collect();
+        self.cli_ms.0 += t1.elapsed().as_millis();
+        self.cli_ms.1 += (t1 - t0).as_millis();
+        recs
     }
 
     fn cli_specs(&mut self, runs: &[&CliRunRec]) -> Vec<Option<Sexp>> {
@@ -354,6 +399,9 @@ impl Ctx {
                 self.rep.count("cli:runs");
                 self.rep.count(&format!("cli:outcome:{}", rec.out.tag()));
                 self.rep.count(&format!("cli:files:{}", files.len()));
+                if matches!(rec.out, CliOut::Ok(_)) {
+                    self.rep.count(if printer_safe(&input.to_sexp()) { "cli:checked:emitted-schema-vs-reference-merge" } else { "cli:emitted-schema-not-compared(strings the printer does not round-trip)" });
+                }
                 let (tags, nontrivial) = cli_features(input, files.len());
                 for t in &tags {
                     self.rep.count(t);
@@ -361,7 +409,7 @@ impl Ctx {
                 if nontrivial {
                     self.rep.nontrivial(&format!("cli\n{}", files.join(FILE_SEP)));
                 }
-                if let CliOut::Other(m) | CliOut::OkUnobserved(m) = &rec.out {
+                if let CliOut::Other(m) | CliOut::OkUnobserved(m) | CliOut::Unreadable(m) = &rec.out {
                     if self.cli_later_notes < 3 {
                         self.cli_later_notes += 1;
                         self.rep.notes.push(format!("cli leg: schema not observable ({}): {}", rec.out.tag(), trunc(m, 240)));
@@ -388,7 +436,7 @@ impl Ctx {
                         fails.push(Fail { stream: "O", sig: "cli:perm-dependent".into(), what: "two layouts of the same items give different emitted schemas (modulo positions and order)".into(), with_alt: true });
                     }
                 }
-                (a, b) if a.resolver_err() != b.resolver_err() && !matches!(a, CliOut::Crash(_) | CliOut::Unreadable(_)) && !matches!(b, CliOut::Crash(_) | CliOut::Unreadable(_)) => {
+                (a, b) if a.resolver_err() != b.resolver_err() && !matches!(a, CliOut::Crash(_)) && !matches!(b, CliOut::Crash(_)) => {
                     fails.push(Fail { stream: "O", sig: "cli:perm-dependent".into(), what: what(a, b), with_alt: true });
                 }
                 _ => {}
@@ -400,8 +448,10 @@ impl Ctx {
     /// full evaluation of one materialised CLI case without statistics (shrinking, replay of the shrunk case)
     pub fn cli_eval_one(&mut self, mat: &Mat) -> Vec<Fail> {
         let Some(cli) = self.cli_path() else { return vec![] };
-        let main = self.cli_run(&cli, &mat.files);
-        let alt = mat.alt.as_ref().map(|a| self.cli_run(&cli, a));
+        let projects: Vec<&Vec<String>> = std::iter::once(&mat.files).chain(mat.alt.iter()).collect();
+        let mut it = self.cli_run_all(&cli, &projects).into_iter();
+        let main = it.next().unwrap();
+        let alt = it.next();
         let mut recs = vec![&main];
         if let Some(a) = &alt {
             recs.push(a);
@@ -419,11 +469,13 @@ impl Ctx {
             return;
         };
         for chunk in cases.chunks(200) {
+            let projects: Vec<&Vec<String>> = chunk.iter().flat_map(|c| std::iter::once(&c.mat.files).chain(c.mat.alt.iter())).collect();
+            let mut it = self.cli_run_all(&cli, &projects).into_iter();
             let runs: Vec<(CliRunRec, Option<CliRunRec>)> = chunk
                 .iter()
                 .map(|c| {
-                    let main = self.cli_run(&cli, &c.mat.files);
-                    let alt = c.mat.alt.as_ref().map(|a| self.cli_run(&cli, a));
+                    let main = it.next().unwrap();
+                    let alt = if c.mat.alt.is_some() { it.next() } else { None };
                     (main, alt)
                 })
                 .collect();
@@ -434,6 +486,7 @@ impl Ctx {
                 let spec_alt = if alt.is_some() { specs.next().flatten() } else { None };
                 self.rep.count(&format!("origin:{}", case.origin));
                 self.rep.count("cli:projects");
+                self.rep.count(&format!("cli:{}:{}", case.origin, main.out.tag()));
                 let fails = self.cli_judge(&case.mat, main, alt.as_ref(), spec_main.as_ref(), spec_alt.as_ref(), true);
                 let seen = self.samples_by_origin.entry(case.origin).or_insert(0);
                 if *seen < 1 {
